@@ -470,6 +470,10 @@ func (t *pfTr) indexAssign(ix *ast.IndexExpr, rhs ast.Expr, en pfEnv, k func(pfE
 	default:
 		return t.unrec(ix, "element assignment on a computed slice")
 	}
+	if t.rootIsParam(ix.X) {
+		// the backing array belongs to the caller: the assignment is an effect outside the results
+		return t.unrec(ix, "element assignment through a parameter (visible to the caller)")
+	}
 	return t.expr(ix.X, en, "", func(s string) string {
 		return t.expr(ix.Index, en, "", func(i string) string {
 			return t.expr(rhs, en, "", func(v string) string {
@@ -486,6 +490,31 @@ func (t *pfTr) indexAssign(ix *ast.IndexExpr, rhs ast.Expr, en pfEnv, k func(pfE
 			})
 		})
 	})
+}
+
+// rootIsParam: the variable at the root of x / x.f.g is a parameter or the receiver of the function
+func (t *pfTr) rootIsParam(e ast.Expr) bool {
+	for {
+		switch y := ast.Unparen(e).(type) {
+		case *ast.SelectorExpr:
+			e = y.X
+			continue
+		case *ast.Ident:
+			o := t.objOf(y)
+			sig := t.f.obj.Type().(*types.Signature)
+			if o == nil || (sig.Recv() != nil && sig.Recv() == o) {
+				return true
+			}
+			for i := 0; i < sig.Params().Len(); i++ {
+				if sig.Params().At(i) == o {
+					return true
+				}
+			}
+			return false
+		default:
+			return true
+		}
+	}
 }
 
 // ---------------------------------------------------------------------------------------------
